@@ -7,7 +7,7 @@ if [ "$1" = "-e" ]; then sed -i "$2" "$3"; shift 3; else git apply "$1" || exit 
 [ "${1:-}" = "--" ] && shift
 git -C /repo diff --stat | tail -1
 cd /verif
-./check "$@" --evidence /tmp/ev_mut.json 2>&1 | grep -v "^Test deadlocked" | tail -12
+VERIF_EVIDENCE=/tmp/ev_mut.json ./check "$@" 2>&1 | grep -v "^Test deadlocked" | tail -12
 rc=${PIPESTATUS[0]}
 git -C /repo checkout -- .
 # never leave a mutant build behind: rebuild the harness from the restored tree
